@@ -82,9 +82,21 @@ def _dotted(e):
     return None
 
 
+def load_anchors():
+    p = os.path.join(os.path.dirname(os.path.abspath(__file__)), "anchors.txt")
+    out = set()
+    if os.path.exists(p):
+        for line in open(p):
+            line = line.strip()
+            if line and not line.startswith("#"):
+                out.add(line)
+    return out
+
+
 class Model:
     def __init__(self, repo: str = REPO, with_pyx: bool = False):
         self.repo = repo
+        self.anchors = load_anchors()
         self.modules: dict[str, ModuleInfo] = {}
         for m in PY_MODULES:
             p = os.path.join(repo, PKG, m + ".py")
@@ -210,10 +222,60 @@ class Model:
         mod, _, rest = qual.partition(".")
         return mod in self.modules and rest in self.modules[mod].functions
 
-    def all_funcs(self, backends=("py",)):
+    def all_funcs(self, backends=("py",), helpers=False):
+        """Functions analysed on their own. Transparent helpers (see `transparent`) are left out unless asked for:
+        the engine analyses them in place at each of their call sites."""
+        skip = set() if helpers else self.transparent()
         for mi in self.modules.values():
             if mi.backend in backends:
-                yield from mi.functions.values()
+                for fi in mi.functions.values():
+                    if fi.qual not in skip:
+                        yield fi
+
+    def inlinable(self, fi) -> bool:
+        """A package function that is not one of the anchors the rules were written against (a helper introduced by
+        a later change) and has no caching / descriptor semantics of its own: calls to it are analysed in place."""
+        if not self.anchors or fi.qual in self.anchors or fi.memo or fi.kind in ("overload", "staticmethod", "classmethod"):
+            return False
+        return not any((_dotted(d.func if isinstance(d, ast.Call) else d) or "").split(".")[-1] in
+                       ("property", "cached_property", "under_cached_property", "setter") for d in fi.decorators)
+
+    def transparent(self):
+        """Quals of private helpers that are only ever *called* (never passed around), so that analysing their call
+        sites in place covers every use; anything else is also analysed as a function of its own."""
+        if getattr(self, "_transparent", None) is not None and self._transparent[0] == len(self.modules):
+            return self._transparent[1]
+        out = set()
+        cands = {}
+        for mi in self.modules.values():
+            for fi in mi.functions.values():
+                private = fi.name.startswith("_") and not (fi.name.startswith("__") and fi.name.endswith("__"))
+                if private and self.inlinable(fi):
+                    cands.setdefault(fi.name, []).append(fi)
+        if cands:
+            calls = {n: 0 for n in cands}
+            other = {n: 0 for n in cands}
+            for mi in self.modules.values():
+                for node in ast.walk(mi.tree):
+                    name = None
+                    if isinstance(node, ast.Name) and isinstance(node.ctx, ast.Load):
+                        name = node.id
+                    elif isinstance(node, ast.Attribute) and isinstance(node.ctx, ast.Load):
+                        name = node.attr
+                    if name not in cands:
+                        continue
+                    par = getattr(node, "_parent", None)
+                    direct = isinstance(par, ast.Call) and par.func is node and \
+                        not any(isinstance(a, ast.Starred) for a in par.args) and not any(k.arg is None for k in par.keywords)
+                    if direct:
+                        calls[name] += 1
+                    else:
+                        other[name] += 1
+            for n, fis in cands.items():
+                if calls[n] and not other[n]:
+                    out.update(fi.qual for fi in fis)
+        self._transparent = (len(self.modules), out)
+        return out
 
     def methods(self, module, cls):
         mi = self.module(module)
